@@ -105,3 +105,24 @@ def mod_delegates():
     if body != "letresult=value.try_rem(modulus)?;Ok(result)":
         return False, "stdlib mod no longer just delegates to try_rem: %s" % got["body"].strip()[:200]
     return True, "mod(value, modulus) == value.try_rem(modulus)? (body sha %s)" % got["body_sha"][:12]
+
+
+@scan("target_call_sites")
+def target_call_sites():
+    """Frame for C15/C16/C17: the files in /repo/src that call the embedder's Target operations."""
+    want = {"src/compiler/expression/query.rs", "src/compiler/expression/assignment.rs", "src/stdlib/del.rs",
+            "src/stdlib/exists.rs", "src/stdlib/unnest.rs", "src/compiler/runtime.rs"}
+    allowed_defs = {"src/compiler/target.rs", "src/compiler/test_util.rs", "src/compiler/function.rs"}
+    got = set()
+    for f in src_files("src"):
+        rel = os.path.relpath(f, C.REPO)
+        s = C.read(f)
+        # strip cfg(test) modules crudely: only look before `#[cfg(test)]`
+        cut = s.find("#[cfg(test)]")
+        body = s if cut < 0 else s[:cut]
+        if re.search(r"\.\s*target_(get|get_mut|insert|remove)\s*\(", body):
+            got.add(rel)
+    extra = got - want - allowed_defs
+    if extra:
+        return False, "new call site(s) of Target operations without a contract: %s" % sorted(extra)
+    return True, "Target operations are called from %s" % sorted(got & want)
